@@ -146,6 +146,21 @@ func (o *c43Obs) observe(w *gWorld, ev *gEvent) {
 	}
 }
 
+func c43NewObs(r *verifkit.Run, cfg gConfig) *c43Obs {
+	o := &c43Obs{r: r, flagged: map[string]bool{}, mem: map[string]*c43Member{}, interval: time.Duration(cfg.CleanupMs) * time.Millisecond}
+	o.rmin, o.rmax = time.Duration(cfg.RebalMs[0])*time.Millisecond, time.Duration(cfg.RebalMs[0])*time.Millisecond
+	for _, v := range cfg.RebalMs {
+		d := time.Duration(v) * time.Millisecond
+		if d < o.rmin {
+			o.rmin = d
+		}
+		if d > o.rmax {
+			o.rmax = d
+		}
+	}
+	return o
+}
+
 // c43Template builds structured timing scenarios: a group is formed, then some
 // members heartbeat at a fixed period below their session timeout while others
 // go silent or lag a rebalance.
@@ -211,9 +226,33 @@ func TestVerifC43(t *testing.T) {
 	p.Rebals = []int64{1500, 3000, 6000, 12000}
 	p.Cleanups = []int64{100, 250, 500}
 	p.MixRebal = true
-	n := r.N(700, 12000)
+	n := r.N(600, 30000)
+	seen := func(w *gWorld, ev *gEvent) { r.Seen("group_states", w.stateSig(ev.After)) }
+	account := func(ci int, w *gWorld, o *c43Obs) {
+		if w.blocked {
+			r.Inconclusive(fmt.Sprintf("case %d: a coordinator call never returned", ci))
+		}
+		r.Case(gOpsSig(w), o.expiredOK+o.laggardOK > 0 && o.survivedByHeartbeat > 0)
+		r.Count("steps_and_probes", int64(len(w.log)))
+		r.Count("probes_where_a_member_lived_on_heartbeats_only", int64(o.survivedByHeartbeat))
+		if ci < 2 {
+			r.Sample(gWitness(w, -1, nil))
+		}
+	}
 	for ci := 0; ci < n; ci++ {
 		rng := r.Rand(ci)
+		if ci%4 == 2 { // two groups served by one coordinator (one cleanup loop), interleaved
+			cfgs, ops := gGenPair(rng, p, fmt.Sprintf("g%d", ci))
+			var os [2]*c43Obs
+			ws := gRunPair(t, cfgs, ops, int64(ci)*100000, func(i int, w *gWorld) {
+				os[i] = c43NewObs(r, w.cfg)
+				w.obs = append(w.obs, os[i].observe, seen)
+			})
+			account(ci, ws[0], os[0])
+			account(ci, ws[1], os[1])
+			r.Count("cases_with_two_groups_on_one_coordinator", 1)
+			continue
+		}
 		cfg := gGenConfig(rng, p, fmt.Sprintf("g%d", ci))
 		var ops []gOp
 		if ci%2 == 0 {
@@ -226,32 +265,13 @@ func TestVerifC43(t *testing.T) {
 			}
 			ops = c43Template(rng, cfg)
 		}
-		o := &c43Obs{r: r, flagged: map[string]bool{}, mem: map[string]*c43Member{}, interval: time.Duration(cfg.CleanupMs) * time.Millisecond}
-		o.rmin, o.rmax = time.Duration(cfg.RebalMs[0])*time.Millisecond, time.Duration(cfg.RebalMs[0])*time.Millisecond
-		for _, v := range cfg.RebalMs {
-			d := time.Duration(v) * time.Millisecond
-			if d < o.rmin {
-				o.rmin = d
-			}
-			if d > o.rmax {
-				o.rmax = d
-			}
-		}
-		w := gRunCase(t, cfg, ops, int64(ci)*100000, func(w *gWorld) {
-			w.obs = append(w.obs, o.observe, func(w *gWorld, ev *gEvent) { r.Seen("group_states", w.stateSig(ev.After)) })
-		})
-		if w.blocked {
-			r.Inconclusive(fmt.Sprintf("case %d: a coordinator call never returned", ci))
-		}
-		r.Case(gOpsSig(w), o.expiredOK+o.laggardOK > 0 && o.survivedByHeartbeat > 0)
-		r.Count("steps_and_probes", int64(len(w.log)))
-		r.Count("probes_where_a_member_lived_on_heartbeats_only", int64(o.survivedByHeartbeat))
-		if ci < 2 {
-			r.Sample(gWitness(w, -1, nil))
-		}
+		o := c43NewObs(r, cfg)
+		w := gRunCase(t, cfg, ops, int64(ci)*100000, func(w *gWorld) { w.obs = append(w.obs, o.observe, seen) })
+		account(ci, w, o)
 	}
 	r.Floor("removed_after_session_lapse", 100)
 	r.Floor("removed_as_rebalance_laggard", 20)
 	r.Floor("probes_where_a_member_lived_on_heartbeats_only", 200)
 	r.Floor("group_states", 12)
+	r.Exhaustive(false) // a sample of histories; the bounded-exhaustive part is leg enum
 }
